@@ -11,6 +11,12 @@ RULE = ("TLC enumerates 15 absolute literals (month/year ends, leap day; day/hou
 ASSUMPTIONS = ["the shim's frozen CLOCK_REALTIME is the clock fselect reads", "tzdata fixed-offset zone Etc/GMT-3 is UTC+3"]
 
 
+def mech(tier, seed):
+    # Mech => Prop: the interval that parse_datetime (DateMech: the date expression searched for in the characters of the literal,
+    # relative words and day offsets) reads out of every generated literal is the wall-clock interval Prop gives it
+    return [dict(module="MC_DateMech", cfg="MC_DateMech", workers=2, actions=[], coverage=False)]
+
+
 def generators(tier, seed):
     return [dict(module="MC_C13", workers=2)]
 
